@@ -22,7 +22,10 @@ def disIds := role_dis
 def yieldIds := role_yield
 
 def dumpOnce : Out → List Nat → Bool := fun _ log => countIn dumpIds log == 1
-def exitsAbsorbed : Out → List Nat → Bool := fun o _ => o != .raised .sysExit && o != .raised .kbInt
+/-- an exit or interrupt can leave kernprof's run block only from the final dump itself (writing the file is I/O: it may fail, or be
+    interrupted): whatever the *program* raises is absorbed, and the dump has been attempted -/
+def exitsAbsorbed : Out → List Nat → Bool := fun o log =>
+  (o != .raised .sysExit && o != .raised .kbInt) || countIn dumpIds log == 1
 /-- the dump comes after the program part (no user-code leaf is attempted after it) -/
 def dumpAfterProgram : Out → List Nat → Bool := fun _ log =>
   (log.dropWhile (fun n => !dumpIds.contains n)).all fun n => !userCodeIds.contains n
@@ -40,11 +43,19 @@ theorem dump_exactly_once (env : Env Nat) (k : Nat) :
   have := forall_env_of_check kernprofTail dumpOnce (by decide +kernel) env k
   simpa [dumpOnce] using this
 
-/-- `SystemExit` and `KeyboardInterrupt` raised by the program never leave kernprof's run block -/
+/-- `SystemExit` and `KeyboardInterrupt` raised by the program never leave kernprof's run block: such an outcome is possible only
+    after the final dump was attempted (the dump itself is a leaf that may fail or be interrupted) -/
 theorem exits_absorbed (env : Env Nat) (k : Nat) :
-    (exec env kernprofTail k).1 ≠ .raised .sysExit ∧ (exec env kernprofTail k).1 ≠ .raised .kbInt := by
+    ((exec env kernprofTail k).1 = .raised .sysExit ∨ (exec env kernprofTail k).1 = .raised .kbInt) →
+      countIn dumpIds (exec env kernprofTail k).2.1 = 1 := by
   have := forall_env_of_check kernprofTail exitsAbsorbed (by decide +kernel) env k
-  simpa [exitsAbsorbed] using this
+  intro h
+  simp only [exitsAbsorbed, Bool.or_eq_true, Bool.and_eq_true, bne_iff_ne, ne_eq, beq_iff_eq] at this
+  rcases this with ⟨h1, h2⟩ | h3
+  · rcases h with h | h
+    · exact absurd h h1
+    · exact absurd h h2
+  · exact h3
 
 theorem dump_after_program (env : Env Nat) (k : Nat) :
     dumpAfterProgram (exec env kernprofTail k).1 (exec env kernprofTail k).2.1 = true :=
@@ -82,7 +93,7 @@ theorem generator_iterations_balanced (env : Env Nat) (k : Nat) :
 /-- non-vacuity: the program raises `SystemExit` in `-l` builtin mode with `-i`: outcome normal, one dump, timer stopped -/
 example :
     let on := role_if_interval ++ role_if_builtin ++ role_if_global
-    let env : Env Nat := ⟨fun c => on.contains c, fun _ => some .sysExit⟩
+    let env : Env Nat := ⟨fun c => on.contains c, fun k => if k = 0 then some .sysExit else none⟩
     (exec env kernprofTail 0).1 = .normal ∧ countIn dumpIds (exec env kernprofTail 0).2.1 = 1 ∧
     countIn role_timer_stop (exec env kernprofTail 0).2.1 = 1 := by decide +kernel
 
